@@ -139,7 +139,8 @@ Fixpoint replay (fuel : nat) (acts : list sx) (r : rs) (snaps : list sx) : rs * 
 
 (* ------------------------------------------------------------------------------------------------------------
    kinds 6/7: AsyncTLSStreamTransport.send_all under concurrent senders (Conc.TlsSend); same script language; a task
-   program is a list of packets, a packet the list of its chunks (one chunk: send_all, else send_all_from_iterable).  output = L [L snapshots; L [B plaintext carried by each transport.send_all call]],
+   program is a list of packets, a packet the list of its chunks (one chunk: send_all, else send_all_from_iterable);
+   4th input field = L [A t ...]: the tasks that call recv() instead (they flush pending ciphertext, then wait for data).  output = L [L snapshots; L [B plaintext carried by each transport.send_all call]],
    snapshot = L [A number_of_transport_calls; L statuses] (status 2 = suspended in the underlying transport.send_all) *)
 From EN Require Import Conc.TlsSend.
 
@@ -158,11 +159,15 @@ Definition x_label_for (t : tid) (r : xs) : option xlabel :=
       if nth t (q_cancel r) false then Some (TCancel t)
       else match ts with
            | XNew _ => Some (TStart t)
-           | XWait _ => Some (TResume t)
+           | XWait _ | XRdWait => Some (TResume t)
            | XFlush _ => match nth t (q_outcome r) None with
                          | Some true => Some (TWrite t)
                          | Some false => Some (TFail t)
                          | None => None
+                         end
+           | XRdFlush => match nth t (q_outcome r) None with
+                         | Some true => Some (TWrite t)
+                         | _ => None
                          end
            | _ => None
            end
@@ -194,7 +199,7 @@ Definition x_push (t : tid) (r : xs) : list tid := if mem_tid t (q_ready r) then
 Definition x_is_done (t : tid) (r : xs) : bool :=
   match nth_error (x_tasks (q_st r)) t with Some (XDone _) => true | _ => false end.
 Definition x_is_flushing (t : tid) (r : xs) : bool :=
-  match nth_error (x_tasks (q_st r)) t with Some (XFlush _) => true | _ => false end.
+  match nth_error (x_tasks (q_st r)) t with Some (XFlush _) | Some XRdFlush => true | _ => false end.
 
 Definition x_act_start (t : tid) (r : xs) : xs :=
   if nth t (q_created r) true then r
@@ -213,8 +218,8 @@ Definition x_status (n : nat) (r : xs) (ts : xstate) : Z :=
   match ts with
   | XNew _ => if nth n (q_created r) false then 1 else 0
   | XRun => 1
-  | XWait _ => 1
-  | XFlush _ => 2
+  | XWait _ | XRdWait | XRecv => 1
+  | XFlush _ | XRdFlush => 2
   | XDone c => c
   end%Z.
 Fixpoint x_statuses (n : nat) (r : xs) (ts : list xstate) : list sx :=
@@ -237,14 +242,25 @@ Fixpoint x_replay (fuel : nat) (acts : list sx) (r : xs) (snaps : list sx) : xs 
       end
   end.
 
-Definition run_tls (pr : sx) (acts : list sx) : sx :=
+(* the payload of a transport call reaches the peer in two halves, the second one when the call returns: the plaintext of
+   the call in flight (the newest one, if a task is suspended in the transport) is not decoded yet *)
+Definition in_flight (s : tls) : bool :=
+  existsb (fun x => match x with XFlush _ | XRdFlush => true | _ => false end) (x_tasks s).
+Definition decoded_calls (s : tls) : list bytes :=
+  match x_calls s with
+  | c :: r => rev ((if in_flight s then [] else c) :: r)
+  | [] => []
+  end.
+
+Definition run_tls (pr : sx) (rd : sx) (acts : list sx) : sx :=
+  do readers <- as_list_of as_nat rd;
   do progs <- as_list_of (as_list_of (as_list_of as_bytes)) pr;
   let n := length progs in
   let fuel := fold_right (fun p k => 3 * S (length p) + k) 8 progs in
-  let r0 := mkXs (tls_init progs) [] (repeat false n) (repeat false n) (repeat None n) false in
+  let r0 := mkXs (tls_init progs readers) [] (repeat false n) (repeat false n) (repeat None n) false in
   let '(r, snaps) := x_replay fuel acts r0 [] in
   if q_bad r || x_crashed (q_st r) then bad_input
-  else L [L snaps; L (map B (rev (x_calls (q_st r))))].
+  else L [L snaps; L (map B (decoded_calls (q_st r)))].
 
 (* ------------------------------------------------------------------------------------------------------------
    kinds 8/9: blocking TCPNetworkClient / UDPNetworkClient with real threads.  Which waiting thread gets
@@ -305,7 +321,7 @@ Definition prog_size (pr : list packet) : nat := fold_right (fun p n => S (S (le
 
 Definition run (i : sx) : sx :=
   match i with
-  | L (A 6%Z :: pr :: L acts :: _) | L (A 7%Z :: pr :: L acts :: _) => run_tls pr acts
+  | L (A 6%Z :: pr :: L acts :: rd :: _) | L (A 7%Z :: pr :: L acts :: rd :: _) => run_tls pr rd acts
   | L (A 8%Z :: pr :: L acts :: _) => do progs <- as_list_of as_prog pr; run_threads 8 progs acts
   | L (A 9%Z :: pr :: L acts :: _) => do progs <- as_list_of as_prog pr; run_threads 9 progs acts
   | L (A kind :: pr :: L acts :: _) =>
